@@ -937,3 +937,23 @@ pub fn with_exact_length(m: SMsg) -> SMsg {
         m => m,
     }
 }
+
+/// content a writer may already hold before a value is encoded: usually empty or short, occasionally long enough
+/// to put the value across a 2^16 boundary of the writer
+pub fn gen_prefix(t: &mut Tape) -> Vec<u8> {
+    let n = match t.below(16) {
+        0..=6 => 0,
+        7 => 1,
+        8 | 9 => 1 + t.below(40),
+        10 => 1 + t.below(300),
+        11 => 65535 - t.below(40),
+        12 => 65536 + t.below(40),
+        13 => 65536 * (1 + t.below(3)) - t.below(1100),
+        _ => 2 + t.below(14),
+    };
+    if n > 400 {
+        (0..n).map(|i| (i as u8) ^ 0xa7).collect()
+    } else {
+        t.blob(n)
+    }
+}
